@@ -120,6 +120,11 @@ def expected_flows(b, spec):
                 add(bus, +1, vn(b, ck, 'BUS', 'SUP_' + good), cur)
             else:
                 add(bus, +1, vn(b, ck, 'GOOD', 'SUP_' + b.sectors[bus].FullCode), cur)
+            if c.get('second_market'):
+                srv = b.sectors[(ck, 'SRV')]
+                local = 'DEM_' + (srv.Code if c['role'] == 'single' else srv.FullCode)
+                add(gk, -1, vn(b, gkey, grole, local), cur)
+                add(bus, +1, srv.GetVariableName('SUP_' + b.sectors[bus].FullCode), cur)
             if c.get('custom'):
                 g_name = vn(b, ck, 'DONOR', 'GRANT')
                 add((ck, 'DONOR'), -1, g_name, cur)
@@ -237,6 +242,23 @@ def check_markets(J, b, spec):
                                lambda k, assigned=assigned, scur=scur, cur=cur: J.v(assigned, k) * rate(J, b, cur, scur, k),
                                k_from=1, ctx={'market': good.FullCode, 'supplier': s.FullCode,
                                               'cross_currency': scur != cur})
+            # ---- second market of the country (government is the only demander, the firm the only supplier)
+            if c.get('second_market'):
+                srv = b.sectors[(ck, 'SRV')]
+                sc = srv.Code
+                sdem, ssup = srv.GetVariableName('DEM_' + sc), srv.GetVariableName('SUP_' + sc)
+                glocal = 'DEM_' + (sc if c['role'] == 'single' else srv.FullCode)
+                J.equal_series('market_demand_not_sum_of_declared_demands', sdem, lambda k, n=sdem: J.v(n, k),
+                               lambda k, n=vn(b, gkey, grole, glocal): J.v(n, k), k_from=1, ctx={'market': srv.FullCode})
+                J.equal_series('market_supply_not_equal_demand', ssup, lambda k, n=ssup: J.v(n, k),
+                               lambda k, n=sdem: J.v(n, k), k_from=1, ctx={'market': srv.FullCode})
+                J.equal_series('supplier_amounts_do_not_add_up_to_supply', ssup,
+                               lambda k, n=srv.GetVariableName('SUP_' + bus.FullCode): J.v(n, k),
+                               lambda k, n=ssup: J.v(n, k), k_from=1, ctx={'market': srv.FullCode})
+                J.equal_series('participant_variable_not_market_assigned_amount', 'firm supply to second market',
+                               lambda k, n=bus.GetVariableName(srv.GetSupplierTerm(bus)): J.v(n, k),
+                               lambda k, n=srv.GetVariableName('SUP_' + bus.FullCode): J.v(n, k), k_from=1,
+                               ctx={'market': srv.FullCode, 'supplier': bus.FullCode})
             # ---- labour market
             ldem, lsup = lab.GetVariableName('DEM_' + lcode), lab.GetVariableName('SUP_' + lcode)
             J.equal_series('market_demand_not_sum_of_declared_demands', ldem, lambda k, ldem=ldem: J.v(ldem, k),
